@@ -33,20 +33,28 @@ EVK = ['Delegated', 'Undelegated', 'Redelegated', 'Withdrew', 'Voted', 'VotedWei
 
 
 class Names:
-    """byte strings that occur often (addresses, topics, validator strings) are defined once per file.  Measured on this
-    image: Coq ingests byte-list literals at ~20 KB/s per core (string / hex-number notations are slower), which is what
-    bounds the shard sizes below."""
+    """byte strings that occur often (addresses, topics, validator strings, ABI words) are defined once per file.
+    Measured on this image: Coq ingests byte-list literals at ~25 KB/s per core (string / number notations are
+    slower), which bounds the case volume; long byte strings (ABI data) are therefore cut into 32-byte words, most of
+    which (offsets, lengths, padding, validator strings, small amounts) repeat across cases."""
 
     def __init__(self):
         self.m = {}
 
-    def b(self, hexstr):
-        raw = bytes.fromhex(hexstr)
-        if len(raw) not in (20, 32) and len(raw) < 40:
-            return vlib.coq_literal_bytes(raw)
+    def name(self, hexstr):
         if hexstr not in self.m:
             self.m[hexstr] = 'b%d' % len(self.m)
         return self.m[hexstr]
+
+    def b(self, hexstr):
+        raw = bytes.fromhex(hexstr)
+        if len(raw) in (20, 32):
+            return self.name(hexstr)
+        if len(raw) < 40:
+            return vlib.coq_literal_bytes(raw)
+        words = [hexstr[i:i + 64] for i in range(0, len(hexstr), 64)]
+        parts = [self.name(w) if len(w) == 64 else vlib.coq_literal_bytes(bytes.fromhex(w)) for w in words]
+        return '(concat %s)' % coq_list(parts)
 
     def defs(self):
         return ''.join('Definition %s : bytes := %s.\n' % (n, vlib.coq_literal_bytes(bytes.fromhex(h)))
@@ -354,8 +362,8 @@ def check(run):
                            explanation='the correspondence harness no longer builds against /repo'), no_input=True)
         return run.finish()
 
-    n_hook = run.budget(6000, 120000)
-    n_app = run.budget(160, 3200)
+    n_hook = run.budget(4000, 100000)
+    n_app = run.budget(144, 3000)
     hooks, err = run_generated(run, 'hook', n_hook, 8)
     if hooks:
         env0 = vlib.read_jsonl(os.path.join(run.work, 'hook_out_0.jsonl'))[0]['env']
